@@ -93,5 +93,10 @@ def conditions(tier):
         for term in (["\n"] if tier == "quick" else ["", "\n", "\r\n"]):
             cs.append(Cond(M, "language_header", {"names": ["en", "zz", "en-pirate", "EN"], "slots": slots, "term": term}, T=600,
                            reach=["match", "no-match", "raises"]))
+    # the unknown-dialect error at the header is reported by a reused Parser as well (same header at the same position as in an earlier document)
+    from kit.pdrive import LANGBAD, FEATURE, SCENARIO, STEP
+    for stop in (False, True):
+        cs.append(Cond("harness.pdrv", "agree2", {"prefix": [], "k": 2, "stop": stop, "before": [[LANGBAD, FEATURE, SCENARIO, STEP], [LANGBAD]]}, T=600,
+                       label="pdrv.agree2[reuse after an unknown-language document%s]" % (",stop" if stop else "")))
     cs.append(Cond(M, "twin_never_recognised", {"dialect": "en"}, T=60, expect="cex"))
     return cs
